@@ -140,6 +140,9 @@ type TunPlan struct {
 	// QuietBefore[i]: the client is quiet for that long (simulated time passes on the open
 	// tunnel) before it sends transport message i (segment i with Segs, else packet i)
 	QuietBefore map[int]time.Duration
+	// QuietGate, when set, must hold before a quiet period starts (e.g. "every other tunnel of
+	// the run is through its set-up": their cookies must not expire while this client is silent)
+	QuietGate func() bool
 }
 
 type Tun struct {
@@ -160,6 +163,7 @@ type Tun struct {
 	lost       *env.TunClient
 	lostStage  int
 	preDelayed bool
+	quietTries int
 	quiet      map[int]bool
 }
 
@@ -307,9 +311,35 @@ func StartTunnels(c *Ctx, plans []*TunPlan) []*Tun {
 				if t.quiet == nil {
 					t.quiet = map[int]bool{}
 				}
+				// a silence of minutes is placed only where it is "a silent client" and nothing else:
+				// the gateway has taken and answered what was sent so far, and every other tunnel of
+				// the run is through its set-up (cookies live five minutes); otherwise it is skipped
+				ok := d < 4*time.Minute || p.QuietGate == nil || p.QuietGate()
+				if d >= 4*time.Minute {
+					for _, e := range []*sim.End{cl.WS, cl.In} {
+						if e != nil && e.Peer != nil && e.Peer.InFlight() > 0 {
+							ok = false
+						}
+					}
+					want := idx
+					if want > 4 {
+						want = 4
+					}
+					if p.Segs == nil && len(cl.Packets()) < want {
+						ok = false
+					}
+				}
+				if !ok && t.quietTries < 400 && !cl.Ended() {
+					// not yet: let the network and the gateway catch up (this step only lets time-less
+					// things happen; the attempt is repeated a bounded number of times)
+					t.quietTries++
+					return
+				}
 				t.quiet[idx] = true
-				c.S.Advance(d)
-				c.S.Count("fault.client.quiet_period")
+				if ok {
+					c.S.Advance(d)
+					c.S.Count("fault.client.quiet_period")
+				}
 				return
 			}
 			if p.Segs != nil {
@@ -442,6 +472,23 @@ func (t *Tun) setupStep(c *Ctx) {
 	}
 	if err != nil {
 		t.Err = err.Error()
+	}
+}
+
+// OthersSetUp is a QuietGate: every tunnel other than p has its channel (four responses), has
+// ended, or can no longer proceed.
+func OthersSetUp(tuns *[]*Tun, p *TunPlan) func() bool {
+	return func() bool {
+		for _, t := range *tuns {
+			if t.Plan == p {
+				continue
+			}
+			if len(t.Client.Packets()) >= 4 || t.Client.Ended() || t.closed || t.Client.Failed != "" || t.Err != "" {
+				continue
+			}
+			return false
+		}
+		return true
 	}
 }
 
